@@ -775,6 +775,13 @@ def m_from_residual(P, c, args, dt):
     return err(convert_from(P, r.f[0], from_ty, to_ty))
 
 
+def norm_std_ty(t):
+    for a in ('core::', 'alloc::'):
+        if t.startswith(a):
+            return 'std::' + t[len(a):]
+    return t
+
+
 def convert_from(P, v, from_ty, to_ty):
     """<To as From<From>>::from(v)"""
     if to_ty is None or from_ty is None or strip_lifetimes(from_ty) == strip_lifetimes(to_ty):
@@ -814,12 +821,18 @@ def convert_from(P, v, from_ty, to_ty):
     lst = P.M.trait_impls.get(('From', last, 'from'))
     if lst:
         want = type_base(from_ty).rsplit('::', 1)[-1]
+        wfull = norm_std_ty(type_base(from_ty))
         hits = []
+        exact = []
         for nm in lst:
             params, ret = P.M.mir.signature(nm)
             if params and type_base(params[0][1]).rsplit('::', 1)[-1] == want and \
                     params[0][1].startswith('&') == from_ty.strip().startswith('&'):
                 hits.append(nm)
+                if norm_std_ty(type_base(params[0][1])) == wfull:
+                    exact.append(nm)
+        if len(exact) == 1:
+            return P.run_fn(P.M.mir.get(exact[0]), [v])
         if len(hits) == 1:
             return P.run_fn(P.M.mir.get(hits[0]), [v])
         if len(lst) == 1:
